@@ -1,0 +1,38 @@
+//go:build verif
+
+package regions
+
+// Machine-checked contracts for /verif/govc (contract-based deductive
+// verification). Comments only; this file compiles to nothing and is only
+// read with the build tag "verif".
+
+// Representation invariant of Index relative to the ghost interval lists
+// gStarts/gEnds/gN (see /verif/specs/30regions.spec; cover(x,p) is the
+// property's own "starts[x] <= p < ends[x]"):
+//  (a) breakpoints strictly increasing;
+//  (b) for breakpoint k and every position p in [start_k, start_k+1) the stored
+//      list is the strictly ascending enumeration of {x | cover(x,p)};
+//  (c) nothing covers a position before the first breakpoint (or any position
+//      when there is no breakpoint).
+
+//@ func Index.At
+//@   props C16
+//@   fresh-result
+//@   let L := idx.idx
+//@   requires idx != nil
+//@   requires forall a int, b int :: 0 <= a && a < b && b < len(L) ==> L[a].start < L[b].start
+//@   requires forall k int, p int, m int :: 0 <= k && k < len(L) && L[k].start <= p && (k == len(L)-1 || p < L[k+1].start) &&
+//@              0 <= m && m < len(L[k].idxs) ==> cover(L[k].idxs[m], p)
+//@   requires forall k int, p int, x int :: 0 <= k && k < len(L) && L[k].start <= p && (k == len(L)-1 || p < L[k+1].start) &&
+//@              cover(x, p) ==> exists m int :: 0 <= m && m < len(L[k].idxs) && L[k].idxs[m] == x
+//@   requires forall k int, a int, b int :: 0 <= k && k < len(L) && 0 <= a && a < b && b < len(L[k].idxs) ==> L[k].idxs[a] < L[k].idxs[b]
+//@   requires forall p int, x int :: (len(L) == 0 || p < L[0].start) ==> !cover(x, p)
+//@   ensures forall m int :: 0 <= m && m < len(result) ==> cover(result[m], i)
+//@   ensures forall x int :: cover(x, i) ==> exists m int :: 0 <= m && m < len(result) && result[m] == x
+//@   ensures forall a int, b int :: 0 <= a && a < b && b < len(result) ==> result[a] < result[b]
+
+//@ func NewIndex
+//@   props C16
+//@   thin
+//@   panics len(starts) != len(ends)
+//@   ensures result != nil
